@@ -125,3 +125,67 @@ def validate(rep, traces, own):
             d['lens'].update(v['lens'])
             d['lists'] += t['args']['numinst'] * t['args']['v']['n1']
     return lens_by_key
+
+
+# ---------------------------------------------------------------------------
+# even spreading: MC_Spread.tla (bounded, TLC) + SpreadProofs.tla (unbounded, TLAPS) + the two helper functions
+def replay_spread(tag, rec):
+    from . import impl
+    impl.ensure_repo()
+    from matchingproblems.generator import generator_shared as gs
+    from matchingproblems.generator.generator_spa import Generator_spa
+    n, total = rec['n'], rec['total']
+    key = 'n=%d total=%d' % (n, total)
+    out = []
+
+    def cl(name, ok, what=''):
+        out.append((name, bool(ok), key + ' | ' + name, what, None if ok else {'n': n, 'total': total, 'spec': rec, 'observed': what}, 'C08'))
+    try:
+        got = [int(x) for x in gs.create_quotas(n, total)]
+        cl('create_quotas_equals_spread', got == rec['spread'], 'create_quotas(%d, %d) = %s, Spread = %s' % (n, total, got, rec['spread']))
+        # the default target sum is the float 0.0: sums may arrive as floats
+        gotf = [int(x) for x in gs.create_quotas(n, float(total))]
+        cl('create_quotas_float_sum', gotf == rec['spread'] and all(float(x).is_integer() for x in gs.create_quotas(n, float(total))),
+           'create_quotas(%d, %r) = %s' % (n, float(total), gs.create_quotas(n, float(total))))
+    except BaseException as e:  # noqa
+        cl('create_quotas_equals_spread', False, '%s: %s' % (type(e).__name__, e))
+    if total >= 1:
+        try:
+            got = [int(x) for x in Generator_spa().create_project_lecturers(total, n)]
+            cl('project_lecturers_equals_spreadassign', got == rec['assign'],
+               'create_project_lecturers(n2=%d, n3=%d) = %s, SpreadAssign = %s' % (total, n, got, rec['assign']))
+        except BaseException as e:  # noqa
+            cl('project_lecturers_equals_spreadassign', False, '%s: %s' % (type(e).__name__, e))
+    return out, {'hash': key, 'sample': {'n': n, 'total': total, 'spec_spread': rec['spread']}}
+
+
+def spread_stage(rep, pool, tier):
+    import os
+    import shutil
+    import subprocess
+    q = tier == 'quick'
+
+    def on_result(info):
+        rep.evaluations += 1
+    res = engine.tlc_replay(rep, pool, 'MC_Spread', replay_spread, consts=dict(MaxN=8 if q else 12, MaxTotal=30 if q else 60), spec='SpSpec',
+                            invariants=['SumsToTotal', 'DifferByOne', 'LargerFirst', 'NonNegative', 'AssignLaws', 'Export'],
+                            label='Spread / SpreadAssign laws', on_result=on_result, timeout=1800)
+    rep.notes.append('MC_Spread: %d (n, total) pairs model-checked and replayed into create_quotas / create_project_lecturers' % res['exports'])
+    # unbounded: TLAPS
+    src = os.path.join(common.SPEC, 'unbounded', 'SpreadProofs.tla')
+    wd = common.subdir('tlaps-%d' % os.getpid())
+    shutil.copy(src, wd)
+    try:
+        r = subprocess.run(['timeout', '900', 'tlapm', '--toolbox', '0', '0', 'SpreadProofs.tla'], cwd=wd, capture_output=True, text=True)
+        txt = r.stdout + r.stderr
+    except FileNotFoundError:
+        txt = 'tlapm not found'
+    import re
+    m = re.search(r'All (\d+) obligations proved', txt)
+    rep.cov['tlaps_spread_proofs'] = {'module': 'spec/unbounded/SpreadProofs.tla', 'all_proved': bool(m),
+                                      'obligations': int(m.group(1)) if m else 0,
+                                      'theorems': ['SpreadDomain', 'SpreadDiffersByAtMostOne', 'SpreadLargerSharesFirst', 'SpreadNonNegative',
+                                                   'SpreadMonotoneInTotal', 'SpreadSumsToTotal']}
+    if not m:
+        common.machinery_exit(rep.pid, 'TLAPS could not re-check SpreadProofs.tla: %s' % txt[-600:])
+    rep.notes.append('TLAPS: %s obligations of SpreadProofs.tla proved (unbounded n, total)' % m.group(1))
